@@ -134,6 +134,17 @@ Section World.
     schedule_add I x ;;;
     update_tracking I x.
 
+  (** The dispatcher part of [SingleJobShopGraphEnv.step]:
+      [operation = dispatcher.next_operation(job_id)] (ValidationError for a
+      finished job), [-1] replaced by the operation's own machine, [dispatch]. *)
+  Definition env_step (I : instance) (j : nat) (m : Z) : M unit :=
+    w <- get ;;
+    (if (length (get_job I j) <=? nthN (jnext (core w)) j)%nat then raise EValidation else ret tt) ;;;
+    let p := nthN (jnext (core w)) j in
+    o <- of_opt (get_op I j p) EOther ;;
+    m' <- (if m =? -1 then resolve_machine o None else ret m) ;;
+    dispatch I (mkreq j p (Some m')).
+
   (** [Dispatcher.reset] *)
   Definition reset (I : instance) : M unit :=
     set_core (fun d => mkd (mfree d) (jnext d) (jfree d) (repeat [] (num_machines I))) ;;;
@@ -239,6 +250,13 @@ Section World.
 
   Definition q_is_ongoing (I : instance) (x : sop) : M bool :=
     t <- q_now I ;; ret (s_start x <=? t).
+
+  (** [Dispatcher.min_start_time(operations)] on a caller-supplied list, and a
+      filter function applied to a caller-supplied list: neither is cached. *)
+  Definition q_min_start (I : instance) (L : list (nat * nat)) : M Z :=
+    w <- get ;; ret (min_start_time I (core w) L).
+  Definition q_filter (I : instance) (f : fname) (L : list (nat * nat)) : M (list (nat * nat)) :=
+    w <- get ;; ret (apply_filter I (core w) f L).
 
   Definition q_next_operation (I : instance) (j : nat) : M (nat * nat) :=
     w <- get ;;
